@@ -34,9 +34,10 @@ var c10Frames = map[string]string{
 	"unknown":  `{"method":"u.x.M"}`,
 	"nulmeth":  `{"method":null,"more":null}`,
 	"trailing": `{"method":"t.a.R"} x`,
+	"stream":   `{"method":"t.a.LR","more":true}`,
 }
 
-var c10KindOrder = []string{"call", "more", "oneway", "getinfo", "null", "array", "number", "string", "meth5", "morex", "empty", "params5", "trunc", "badutf", "zero", "big", "herr", "unknown", "nulmeth", "trailing"}
+var c10KindOrder = []string{"call", "more", "oneway", "getinfo", "null", "array", "number", "string", "meth5", "morex", "empty", "params5", "trunc", "badutf", "zero", "big", "herr", "unknown", "nulmeth", "trailing", "stream"}
 
 type c10Desc struct {
 	Frames []string `json:"frames"`          // frame kinds, each NUL-terminated on the wire
@@ -101,6 +102,21 @@ func classifyCall(frame string) (callKind, bool) {
 		}
 	}
 	return k, true
+}
+
+// okReplies counts the reply attempts of non-oneway calls that the library reported as sent.
+func okReplies(log []string) int {
+	n, oneway := 0, false
+	for _, e := range log {
+		if strings.HasPrefix(e, "call ") {
+			oneway = strings.Contains(e, "+oneway")
+			continue
+		}
+		if !oneway && strings.HasSuffix(e, ":ok") {
+			n++
+		}
+	}
+	return n
 }
 
 type c10State struct {
@@ -287,6 +303,21 @@ func c10Check(d c10Desc) func(x *vsched.Exec) (string, string) {
 				got = append(got, v)
 			}
 			log := w.Inv["v"]
+			// a reply the handler was told had been sent is on the wire (whatever became of the peer afterwards)
+			fromHandler := 0
+			for _, g := range got {
+				if m, isObj := g.(map[string]interface{}); isObj {
+					pm, _ := m["parameters"].(map[string]interface{})
+					_, hasR := pm["r"]
+					_, hasC := pm["c"]
+					if hasR || hasC || m["error"] == "t.a.Err" || (m["error"] == "org.varlink.service.MethodNotFound" && pm["method"] == "m") {
+						fromHandler++
+					}
+				}
+			}
+			if ok := okReplies(log); ok != fromHandler {
+				return fmt.Sprintf("victim: the handler was told %d times that its reply had been sent, %d of its reply frames were written to the connection (log %v)", ok, fromHandler, log), "symptom=reply-success-without-write"
+			}
 			if exact {
 				if !jsonEqual(got, wantFrames) {
 					return fmt.Sprintf("victim replies %s, reference %s", short(jstr(got)), short(jstr(wantFrames))), "symptom=wrong-replies"
